@@ -83,6 +83,28 @@ func c14do(tr c14exchanger, ctx context.Context, q []byte) bool {
 	return ok
 }
 
+// one exchange with a deadline of dlMs; the harness stops waiting c14Hard after deadline + slack
+// (the elapsed time is then reported as one hour: class "late")
+func c14timed(tr c14exchanger, dlMs int, q []byte) (bool, time.Duration) {
+	dl := time.Duration(dlMs) * time.Millisecond
+	ctx, cancel := context.WithTimeout(context.Background(), dl)
+	defer cancel()
+	done := make(chan bool, 1)
+	t0 := time.Now()
+	go func() { done <- c14do(tr, ctx, q) }()
+	select {
+	case ok := <-done:
+		return ok, time.Since(t0)
+	case <-time.After(dl + c14Slack + c14Hard):
+		return false, time.Hour
+	}
+}
+
+func c14setupExchange(tr c14exchanger, q []byte) bool {
+	ok, _ := c14timed(tr, int(c14SetupWait/time.Millisecond), q)
+	return ok
+}
+
 func c14reuseIdle(t *transport.ReuseConnTransport) int {
 	v := reflect.ValueOf(t).Elem()
 	m, idle := v.FieldByName("m"), v.FieldByName("idleConns")
@@ -114,17 +136,13 @@ func c14retryOnce(m map[string]string) c14outcome {
 		}
 		P++
 	}
-	var sv []string
+	// what a dial meets in this world: the first f- or g-token (a healthy server if there is none)
 	dialTok := ""
 	for _, t := range script {
-		if t == "pidle" {
-			continue
-		}
 		if t[0] == 'g' {
 			dialTok = t
 			break
 		}
-		sv = append(sv, t[1:])
 		if t[0] == 'f' {
 			break
 		}
@@ -149,7 +167,7 @@ func c14retryOnce(m map[string]string) c14outcome {
 		hcancel()
 		tr.Close()
 		w.srv.close()
-		wg.Wait()
+		c14waitTimeout(&wg, 8*time.Second)
 	}()
 	fail := func(why string) c14outcome { out.setupFailed = why; return out }
 
@@ -162,9 +180,7 @@ func c14retryOnce(m map[string]string) c14outcome {
 			swg.Add(1)
 			go func(i int) {
 				defer swg.Done()
-				ctx, cancel := context.WithTimeout(context.Background(), c14SetupWait)
-				defer cancel()
-				if c14do(tr, ctx, c14query("setup", i)) {
+				if c14setupExchange(tr, c14query("setup", i)) {
 					okc.Add(1)
 				}
 			}(i)
@@ -192,11 +208,7 @@ func c14retryOnce(m map[string]string) c14outcome {
 	case m["mode"] == "idle":
 		for i := 0; i < P; i++ {
 			done := make(chan bool, 1)
-			go func() {
-				ctx, cancel := context.WithTimeout(context.Background(), c14SetupWait)
-				defer cancel()
-				done <- c14do(tr, ctx, c14query("setup", i))
-			}()
+			go func() { done <- c14setupExchange(tr, c14query("setup", i)) }()
 			if w.srv.waitSeen(fmt.Sprintf("setup%d", i)) == nil {
 				return fail("setup-query")
 			}
@@ -221,9 +233,7 @@ func c14retryOnce(m map[string]string) c14outcome {
 			fwg.Add(1)
 			go func(i int) {
 				defer fwg.Done()
-				ctx, cancel := context.WithTimeout(context.Background(), c14SetupWait)
-				defer cancel()
-				if c14do(tr, ctx, c14query("fill", i)) {
+				if c14setupExchange(tr, c14query("fill", i)) {
 					okc.Add(1)
 				}
 			}(i)
@@ -239,14 +249,10 @@ func c14retryOnce(m map[string]string) c14outcome {
 	}
 
 	// ---- the victim
-	w.srv.setScript(sv)
+	w.srv.setScript(script)
 	w.dialMode.Store(dialTok)
 	d0, w0 := w.dials.Load(), w.writes.Load()
-	ctx, cancel := context.WithTimeout(context.Background(), time.Duration(dl)*time.Millisecond)
-	t0 := time.Now()
-	out.ok = c14do(tr, ctx, c14query("victim", 0))
-	out.el = time.Since(t0)
-	cancel()
+	out.ok, out.el = c14timed(tr, dl, c14query("victim", 0))
 	out.att, out.dials = int(w.writes.Load()-w0), int(w.dials.Load()-d0)
 
 	// ---- holders on connections the server killed must have been woken
@@ -394,7 +400,14 @@ func c14retryGen(r *rand.Rand, thorough bool, emit func(c, cat string)) {
 		add(c14retryCase(r, loop, "busy", mk, "ffin"))
 		add(c14retryCase(r, loop, "busy", mk, "gR"))
 		if loop == "reuse" {
+			// more stale pooled connections than the retry budget: the last attempt dials
 			add(c14retryCase(r, loop, "busy", mk+2, ""))
+			add(c14retryCase(r, loop, "busy", mk+1, "fok"))
+			add(c14retryCase(r, loop, "busy", mk+3, "ffin"))
+			add(c14retryCase(r, loop, "busy", mk+2, "gR"))
+			add(c14retryCase(r, loop, "busy", mk+1, "gB"))
+			add(c14case{"loop=reuse mode=busy script=pidle,pidle,pidle,pidle,pidle,pidle,pidle,pidle,fok obs=ad dl=2400", "reuse-idleclose8"})
+			add(c14case{"loop=reuse mode=busy script=pidle,pidle,pidle,pidle,pidle,pidle,pidle,pidle,pidle,pidle,pidle,pidle,fok obs=ad dl=2400", "reuse-idleclose12"})
 			add(c14case{"loop=reuse mode=busy script=pidle,fok obs=ad dl=2400", "reuse-idleclose"})
 			add(c14case{"loop=reuse mode=busy script=pidle,pidle,pidle,pidle,pidle,pidle,fok obs=ad dl=2400", "reuse-idleclose6"})
 			add(c14case{"loop=reuse mode=busy script=pidle,pidle,pidle,pidle,pidle,pidle,pidle,fok obs=ad dl=2400", "reuse-idleclose7"})
@@ -413,7 +426,7 @@ func c14retryGen(r *rand.Rand, thorough bool, emit func(c, cat string)) {
 		}
 		nSilent, nRandom := 3, 14
 		if thorough {
-			nSilent, nRandom = len(c14silentTerms)*3, 150
+			nSilent, nRandom = len(c14silentTerms)*3, 700
 			for k := 0; k <= mk; k++ {
 				for _, t := range c14promptTerms {
 					add(c14retryCase(r, loop, "busy", k, t))
@@ -429,9 +442,12 @@ func c14retryGen(r *rand.Rand, thorough bool, emit func(c, cat string)) {
 		}
 		for i := 0; i < nRandom; i++ {
 			k := r.Intn(mk + 2)
-			if k == mk+1 {
+			if k == mk+1 && loop == "pipeline" {
 				add(c14retryCase(r, loop, "busy", k, ""))
 				continue
+			}
+			if k == mk+1 {
+				k += r.Intn(5) // reuse: any number of stale pooled connections
 			}
 			terms := c14promptTerms
 			if r.Intn(12) == 0 {
